@@ -183,10 +183,14 @@ Fixpoint check_gens (gs : list (list (list nat) * list (list (nat * nat)))) (ms 
       check_gens gs' ms'
   end.
 
+(* 0 Collector.Shutdown()  1 cancelled Run context  2 asynchronous error  3 config-watch error  4 termination signal *)
+Definition trigger_of (c : nat) : trigger :=
+  match c with 0 => TShutdownReq | 1 => TCtxDone | 2 => TAsyncError | 3 => TWatchError | _ => TSignalTerm end.
+
 Definition check_reload (L : list (list nat)) (P : list (list (nat * nat))) : bool :=
   let gs := split_gens (length L) L P in
-  (* L[17] of generation 0 = [the provider's Shutdown fails]; L[16] of a generation = [its close function fails] *)
-  check_gens gs (collector_run_reload (flag 0 (nthL 17 L)) (map gen_of gs)).
+  (* L[17] of generation 0 = [the provider's Shutdown fails; how Run's loop is left]; L[16] of a generation = [its close function fails] *)
+  check_gens gs (collector_run_reload (trigger_of (nth 1 (nthL 17 L) 0)) (flag 0 (nthL 17 L)) (map gen_of gs)).
 
 Definition model_shared (L : list (list nat)) : list (nat * nat) * list nat :=
   let ops := map (fun b => Nat.eqb b 1) (nthL 0 L) in
@@ -217,7 +221,7 @@ Definition model_out (c : nat * (list (list nat) * list (list (nat * nat))))
   | 4 => let '(evs, errs) := model_shared L in Some (evs, map (fun e => (9, e)) errs)
   | 6 => let gs := split_gens (length L) L P in
          (* replay aid: generation separators (99, j) between the per-generation logs *)
-         let ms := collector_run_reload (flag 0 (nthL 17 L)) (map gen_of gs) in
+         let ms := collector_run_reload (trigger_of (nth 1 (nthL 17 L) 0)) (flag 0 (nthL 17 L)) (map gen_of gs) in
          Some (flat_map (fun m => (99, 0) :: map ev_wire (fst m)) ms, flat_map (fun m => (99, 0) :: map err_wire (snd m)) ms)
   | _ => model_lifecycle kind L P
   end.
